@@ -14,3 +14,15 @@ package conditional
 //@ mode effects
 //@ effect[C24:routed-to-the-buckets-storage] every storage.Storage($s).$M(_, storage.BucketName($b), __)
 //@     where $s == csm.lookupStorage($b)
+
+// Cross-storage copies evaluate the copy-source conditions exactly like a same-storage copy.
+//@ func copySourceConditionsSatisfied
+//@ mode nosafety
+//@ ensures[C24:copy-conditions-as-same-storage] object != nil ==> (err != nil) == specCopyConditionsFail(conditions, object.ETag, object.LastModified)
+//@ ensures[C24:copy-conditions-error-kind] err == nil || err == storage.ErrPreconditionFailed
+
+// A cross-storage copy writes the destination with the metadata, tags and storage class a same-storage copy would
+// produce: it must at least hand options to the destination's PutObject.
+//@ func (*conditionalStorageMiddleware).CopyObject
+//@ mode effects
+//@ effect[C24:cross-copy-carries-options] every storage.Storage($s).PutObject(_, _, _, _, _, _, $o) where $o != nil
